@@ -38,6 +38,12 @@
 #ifndef VF_ACCESS               /* (struct vf_payload* p, int write, const char* what) */
 #define VF_ACCESS(p, write) vf_default_access(p, write)
 #endif
+#ifndef VF_HOOK_FUNCTOR         /* (struct vf_payload* p, int write): a user functor is about to be applied to p */
+#define VF_HOOK_FUNCTOR(p, w) ((void)0)
+#endif
+#ifndef VF_USER_WRITE_VALUE     /* (struct vf_payload* p): abstract value after a mutating functor */
+#define VF_USER_WRITE_VALUE(p) vf_nondet_int()
+#endif
 #ifndef VF_MAX_HELD             /* lock-order discipline: locks held at once by library code */
 #define VF_MAX_HELD 1
 #endif
@@ -347,7 +353,7 @@ struct vf_payload *vf_payload__op_assign__1(struct vf_payload *self, struct vf_p
   VF_ACCESS(self, 1);
   VF_ACCESS(o, 0);
   VF_HOOK_USER();
-  if (vf_nondet_bool()) { vf_exc = 1; self->torn = vf_nondet_bool() ? 1 : self->torn; return self; }
+  if (vf_nondet_bool()) { vf_exc = 1; vf_assign_threw = 1; self->torn = vf_nondet_bool() ? 1 : self->torn; return self; }
   self->v = o->v; self->torn = o->torn;
   return self;
 }
@@ -380,11 +386,12 @@ void vf_payload_swap(struct vf_payload *a, struct vf_payload *b)
 int vf_user_effect(struct vf_payload *p, int write)
 {
   __CPROVER_assert(p->life == VF_LIVE, "[life] user functor applied to an object that is not alive");
+  VF_HOOK_FUNCTOR(p, write);
   VF_ACCESS(p, write);
   VF_HOOK_USER();
   if (write) {
     if (vf_nondet_bool()) { vf_exc = 1; p->v = vf_nondet_int(); p->torn = 1; return 0; }
-    p->v = vf_nondet_int();
+    p->v = VF_USER_WRITE_VALUE(p);
   } else {
     if (vf_nondet_bool()) { vf_exc = 1; return 0; }
   }
